@@ -45,9 +45,9 @@ def plan(tier):
     return {
         "level": "fault_enumeration",
         "shards": 16,
-        "budget_s": 45 if q else 600,
+        "budget_s": 45 if q else 450,
         "timeout_s": 420 if q else 1800,
-        "min_nontrivial": 100 if q else 1500,
+        "min_nontrivial": 100 if q else 750,
         "required_counters": ["oracle_bound", "oracle_exhausted_raises", "oracle_below_limit_completes",
                               "oracle_dummy_first_failure", "cases_dummy", "cases_rollback"],
         "rule": "case = (shape, job, phase, kind, failure count f, limit, manager); all (job, phase) of pipelines 1..3, "
@@ -192,7 +192,7 @@ def run_shard(sh: Shard) -> None:
     for i, case in enumerate(cases):
         if not sh.mine(i):
             continue
-        if (time.time() - t_start > sh.plan["budget_s"]) or sh.time_left() < -60:
+        if (time.time() - t_start > sh.plan["budget_s"]) or sh.time_left() < -150:
             break
         run_case(sh, case)
         done += 1
